@@ -191,7 +191,7 @@ def _canon_params(f):
                 _CANON = json.load(fh)
         except OSError:
             _CANON = {}
-    c = _CANON.get('functions', {}).get(f.qual)
+    c = _CANON.get('functions', {}).get(getattr(f, 'canon_qual', None) or f.qual)
     if c is not None and len(c) == len(f.params()):
         return c
     return None
@@ -201,7 +201,7 @@ def is_new_function(f):
     """Did this function not exist on the pinned tree?  New functions are refactoring artefacts from the rules' point of view:
     they are inlined by the path simulator and looked through by writer / who-may-call enumeration."""
     _canon_params(f)
-    return bool(_CANON.get('functions')) and f.qual not in _CANON['functions'] and not f.is_module_body
+    return bool(_CANON.get('functions')) and (getattr(f, 'canon_qual', None) or f.qual) not in _CANON['functions'] and not f.is_module_body
 
 
 def is_new_module_var(module, name):
